@@ -1,1 +1,727 @@
-(* stub: to be written *)
+(* Allclose (C18): the per-output decision of jax2onnx.user_interface._run_allclose.
+
+   [compare]        faithful executable model of the code AS IT IS NOW, including the
+                    `got.astype(expected.dtype)` narrowing cast applied to the ONNX Runtime value
+                    before it is compared.
+   [compare_fixed]  model of the repaired code (.scratch/c18/fix.diff): dtype kinds must agree,
+                    integers are compared exactly as integers, floats with numpy's isclose on the
+                    values as produced (numpy promotes, nothing is narrowed).
+
+   Values are exact: finite floats are rationals (every binary float is one), integers are Z.
+   numpy evaluates |e-g| <= atol + rtol*|g| in floating point; the model evaluates it over Q.
+   Domain of the model: numpy-native element types (bool, (u)int8..64, float16/32/64,
+   complex64/128), finite tolerances rtol, atol >= 0.  float -> int casts of NaN/Inf/out-of-range
+   values are platform dependent in numpy; the model fixes them to the minimum of the target type
+   and the harness never ties such cases. *)
+From Coq Require Import ZArith QArith Qabs Reals Qreals List Bool Lia Lra Psatz.
+From J2O Require Import PyLib Dtype.
+Import ListNotations.
+Local Open Scope Z_scope.
+
+(* ------------------------------------------------------------------ values and outputs *)
+Inductive xval :=
+ | XNaN | XInf (neg : bool) | XFin (q : Q) | XInt (z : Z) | XBool (b : bool)
+ | XCx (re im : xval).            (* complex element: components are XNaN / XInf / XFin *)
+
+Record out := { o_dtype : dtype; o_shape : list nat; o_vals : list xval }.
+Definition o_class (o : out) : dclass := dtype_class (o_dtype o).
+
+(* how two outputs are compared: numpy kinds b / iu / fc *)
+Inductive ckind := KBoolean | KInteger | KFloating | KOtherKind.
+Definition kind_of_class (c : dclass) : ckind :=
+  match c with CBool => KBoolean | CInt => KInteger | CFloat | CComplex => KFloating | COther => KOtherKind end.
+Definition o_kind (o : out) : ckind := kind_of_class (o_class o).
+Definition ckind_eqb (a b : ckind) : bool :=
+  match a, b with
+  | KBoolean, KBoolean | KInteger, KInteger | KFloating, KFloating | KOtherKind, KOtherKind => true
+  | _, _ => false
+  end.
+Lemma ckind_eqb_eq a b : ckind_eqb a b = true -> a = b.
+Proof. destruct a, b; simpl; congruence. Qed.
+
+(* np.issubdtype(d, np.floating) or np.issubdtype(d, np.complexfloating) *)
+Definition is_floating (d : dtype) : bool :=
+  match dtype_class d with CFloat | CComplex => true | _ => false end.
+
+(* ------------------------------------------------------------------ generic list helpers *)
+Fixpoint forall2b {A B} (f : A -> B -> bool) (l : list A) (m : list B) : bool :=
+  match l, m with
+  | [], [] => true
+  | x :: l', y :: m' => f x y && forall2b f l' m'
+  | _, _ => false
+  end.
+
+Lemma forall2b_Forall2 {A B} (f : A -> B -> bool) (P : A -> B -> Prop) :
+  (forall x y, f x y = true -> P x y) ->
+  forall l m, forall2b f l m = true -> Forall2 P l m.
+Proof.
+  intros Hf. induction l as [|x l IH]; destruct m as [|y m]; simpl; intro H; try discriminate.
+  - constructor.
+  - apply andb_prop in H as [H1 H2]. constructor; auto.
+Qed.
+
+Definition list_nat_eqb := list_eqb Nat.eqb.
+Lemma list_nat_eqb_eq a b : list_nat_eqb a b = true -> a = b.
+Proof.
+  unfold list_nat_eqb. revert b.
+  induction a as [|x r IH]; destruct b as [|y s]; cbn [list_eqb]; intro H;
+    try reflexivity; try discriminate.
+  apply andb_prop in H as [H1 H2]. apply Nat.eqb_eq in H1. apply IH in H2. congruence.
+Qed.
+
+(* ------------------------------------------------------------------ rounding to a binary format *)
+(* (precision, exponent of the smallest subnormal, exponent of the largest binade) as in Dtype.float_fmt *)
+Definition round_half_even (n d : Z) : Z :=
+  let q := n / d in let r := n mod d in
+  if 2 * r <? d then q else if d <? 2 * r then q + 1 else if Z.even q then q else q + 1.
+
+Definition pow2 (k : Z) : Z := 2 ^ (Z.max 0 k).
+
+Definition round_fmt (f : Z * Z * Z) (q : Q) : xval :=
+  let '(p, emin, emax) := f in
+  let n := Qnum q in let d := Zpos (Qden q) in
+  if n =? 0 then XFin 0 else
+  let a := Z.abs n in
+  let l := Z.log2 a - Z.log2 d in
+  (* fl = floor (log2 (a/d)) *)
+  let fl := if d * pow2 l <=? a * pow2 (- l) then l else l - 1 in
+  let e := Z.max emin (fl - p + 1) in
+  let m := round_half_even (a * pow2 (- e)) (d * pow2 e) in
+  let neg := n <? 0 in
+  (* |result| = m * 2^e ; overflow when m * 2^e >= 2^(emax+1) *)
+  if pow2 (emax + 1) * pow2 (- e) <=? m * pow2 e then XInf neg
+  else XFin (Qred (Qmake ((if neg then -1 else 1) * m * pow2 e) (Z.to_pos (pow2 (- e))))).
+
+Definition f64 : Z * Z * Z := (53, -1074, 1023).
+
+(* ------------------------------------------------------------------ ndarray.astype, elementwise *)
+Definition real_nonzero (v : xval) : bool :=
+  match v with XFin q => negb (Qeq_bool q 0) | XNaN | XInf _ => true | _ => false end.
+Definition b2q (b : bool) : Q := if b then 1%Q else 0%Q.
+
+Definition cast_real (f : Z * Z * Z) (v : xval) : xval :=
+  match v with
+  | XFin q => round_fmt f q
+  | XInt z => round_fmt f (inject_Z z)
+  | XBool b => XFin (b2q b)
+  | XCx re _ => match re with XFin q => round_fmt f q | _ => re end   (* imaginary part discarded *)
+  | _ => v
+  end.
+
+Definition qtrunc (q : Q) : Z := Z.quot (Qnum q) (Zpos (Qden q)).
+Definition in_intb (sb : bool * Z) (z : Z) : bool := (int_lo sb <=? z) && (z <=? int_hi sb).
+
+Definition cast_int (sb : bool * Z) (v : xval) : xval :=
+  match v with
+  | XInt z => XInt (wrap sb z)
+  | XBool b => XInt (if b then 1 else 0)
+  | XFin q => let t := qtrunc q in XInt (if in_intb sb t then t else int_lo sb)   (* out of range: platform dependent *)
+  | XCx (XFin q) _ => let t := qtrunc q in XInt (if in_intb sb t then t else int_lo sb)
+  | _ => XInt (int_lo sb)                                                          (* NaN / Inf: platform dependent *)
+  end.
+
+Definition cast_bool (v : xval) : xval :=
+  match v with
+  | XBool b => XBool b
+  | XInt z => XBool (negb (z =? 0))
+  | XCx re im => XBool (real_nonzero re || real_nonzero im)
+  | _ => XBool (real_nonzero v)
+  end.
+
+Definition cast_cx (f : Z * Z * Z) (v : xval) : xval :=
+  match v with
+  | XCx re im => XCx (cast_real f re) (cast_real f im)
+  | _ => XCx (cast_real f v) (XFin 0)
+  end.
+
+(* got.astype(expected.dtype, copy=False): no-op when the dtypes are equal *)
+Definition cast_x (from to : dtype) (v : xval) : xval :=
+  if dtype_eqb from to then v else
+  match to with
+  | DT_BOOL => cast_bool v
+  | _ => match int_info to with
+         | Some sb => cast_int sb v
+         | None => match float_fmt to with
+                   | Some f => cast_real f v
+                   | None => match complex_fmt to with Some f => cast_cx f v | None => v end
+                   end
+         end
+  end.
+
+(* ------------------------------------------------------------------ np.isclose(x, y, rtol, atol, equal_nan=True), one element *)
+Definition is_real (v : xval) : bool := match v with XNaN | XInf _ | XFin _ => true | _ => false end.
+Definition is_fin (v : xval) : bool := match v with XFin _ => true | _ => false end.
+Definition is_nan (v : xval) : bool := match v with XNaN => true | _ => false end.
+
+(* x == y on real floats *)
+Definition real_eqb (x y : xval) : bool :=
+  match x, y with
+  | XFin a, XFin b => Qeq_bool a b
+  | XInf s, XInf t => Bool.eqb s t
+  | _, _ => false
+  end.
+
+Definition close_q (rtol atol e g : Q) : bool := Qle_bool (Qabs (e - g)) (atol + rtol * Qabs g)%Q.
+
+Definition isclose_real (rtol atol : Q) (x y : xval) : bool :=
+  match x, y with
+  | XFin e, XFin g => close_q rtol atol e g || Qeq_bool e g
+  | XNaN, XNaN => true
+  | XInf s, XInf t => Bool.eqb s t
+  | _, _ => false
+  end.
+
+(* complex: |x - y| <= atol + rtol*|y| with the moduli eliminated by squaring (rtol, atol >= 0):
+   D = |x-y|^2, G = |y|^2, M = D - atol^2 - rtol^2 G:   M <= 0  \/  M^2 <= 4 atol^2 rtol^2 G *)
+Definition sq (q : Q) : Q := (q * q)%Q.
+Definition cmod_close (rtol atol D G : Q) : bool :=
+  let M := (D - sq atol - sq rtol * G)%Q in
+  Qle_bool M 0 || Qle_bool (sq M) (4 * sq atol * sq rtol * G)%Q.
+
+Definition cx_nan (re im : xval) : bool := is_nan re || is_nan im.
+
+Definition isclose_cx (rtol atol : Q) (xr xi yr yi : xval) : bool :=
+  match xr, xi, yr, yi with
+  | XFin a, XFin b, XFin c, XFin d =>
+      cmod_close rtol atol (sq (a - c) + sq (b - d))%Q (sq c + sq d)%Q || (Qeq_bool a c && Qeq_bool b d)
+  | _, _, _, _ =>
+      (is_real xr && is_real xi && is_real yr && is_real yi) &&
+      ((real_eqb xr yr && real_eqb xi yi) || (cx_nan xr xi && cx_nan yr yi))
+  end.
+
+(* numpy promotes a real operand to complex when the other one is complex *)
+Definition isclose_b (rtol atol : Q) (x y : xval) : bool :=
+  match x, y with
+  | XCx xr xi, XCx yr yi => isclose_cx rtol atol xr xi yr yi
+  | XCx xr xi, _ => is_real y && isclose_cx rtol atol xr xi y (XFin 0)
+  | _, XCx yr yi => is_real x && isclose_cx rtol atol x (XFin 0) yr yi
+  | _, _ => isclose_real rtol atol x y
+  end.
+
+(* exact equality of integers / booleans (np.array_equal on equal non-floating dtypes) *)
+Definition exact_eqb (x y : xval) : bool :=
+  match x, y with
+  | XInt a, XInt b => a =? b
+  | XBool a, XBool b => Bool.eqb a b
+  | _, _ => false
+  end.
+
+(* ------------------------------------------------------------------ the property: "within tolerance" *)
+Definition within_real (rtol atol : Q) (e g : xval) : Prop :=
+  match e, g with
+  | XFin a, XFin b => (Qabs (a - b) <= atol + rtol * Qabs b)%Q
+  | XNaN, XNaN => True                  (* equal_nan=True is the helper's declared meaning of NaN *)
+  | XInf s, XInf t => s = t
+  | _, _ => False
+  end.
+
+Definition cmod_within (rtol atol D G : Q) : Prop :=
+  let M := (D - sq atol - sq rtol * G)%Q in (M <= 0)%Q \/ (sq M <= 4 * sq atol * sq rtol * G)%Q.
+
+Definition real_same (x y : xval) : Prop :=
+  match x, y with
+  | XFin a, XFin b => (a == b)%Q
+  | XInf s, XInf t => s = t
+  | _, _ => False
+  end.
+
+Definition within_cx (rtol atol : Q) (er ei gr gi : xval) : Prop :=
+  match er, ei, gr, gi with
+  | XFin a, XFin b, XFin c, XFin d => cmod_within rtol atol (sq (a - c) + sq (b - d))%Q (sq c + sq d)%Q
+  | _, _, _, _ =>
+      (is_real er && is_real ei && is_real gr && is_real gi = true) /\
+      ((real_same er gr /\ real_same ei gi) \/ (cx_nan er ei = true /\ cx_nan gr gi = true))
+  end.
+
+Definition within (rtol atol : Q) (e g : xval) : Prop :=
+  match e, g with
+  | XInt a, XInt b => a = b
+  | XBool a, XBool b => a = b
+  | XCx er ei, XCx gr gi => within_cx rtol atol er ei gr gi
+  | XCx er ei, (XNaN | XInf _ | XFin _) => within_cx rtol atol er ei g (XFin 0)
+  | (XNaN | XInf _ | XFin _), XCx gr gi => within_cx rtol atol e (XFin 0) gr gi
+  | (XNaN | XInf _ | XFin _), (XNaN | XInf _ | XFin _) => within_real rtol atol e g
+  | _, _ => False
+  end.
+
+(* ---- element-level soundness of the decisions *)
+Lemma Qabs_zero_of_eq a b : (a == b)%Q -> (Qabs (a - b) == 0)%Q.
+Proof. intro H. rewrite H. setoid_replace (b - b)%Q with 0%Q by ring. reflexivity. Qed.
+
+Lemma isclose_real_sound rtol atol x y : (0 <= rtol)%Q -> (0 <= atol)%Q ->
+  isclose_real rtol atol x y = true -> within_real rtol atol x y.
+Proof.
+  intros Hr Ha. destruct x as [|s|a|zx|bx|xr xi]; destruct y as [|t|b|zy|by_|yr yi]; simpl; try discriminate; auto.
+  - intro H. now apply eqb_prop.
+  - intro H. apply orb_prop in H as [H|H].
+    + unfold close_q in H. now apply Qle_bool_iff in H.
+    + apply Qeq_bool_iff in H. rewrite (Qabs_zero_of_eq _ _ H).
+      pose proof (Qabs_nonneg b) as Hb.
+      assert (0 <= rtol * Qabs b)%Q by (apply Qmult_le_0_compat; auto).
+      timeout 20 lra.
+Qed.
+
+Lemma real_eqb_same x y : real_eqb x y = true -> real_same x y.
+Proof.
+  destruct x as [|s|a|zx|bx|xr xi]; destruct y as [|t|b|zy|by_|yr yi]; simpl; try discriminate.
+  - intro H. now apply eqb_prop.
+  - intro H. now apply Qeq_bool_iff.
+Qed.
+
+Lemma cmod_close_sound rtol atol D G : cmod_close rtol atol D G = true -> cmod_within rtol atol D G.
+Proof.
+  unfold cmod_close, cmod_within. intro H. apply orb_prop in H as [H|H]; apply Qle_bool_iff in H; auto.
+Qed.
+
+Lemma cmod_within_eq rtol atol a b c d : (0 <= rtol)%Q -> (0 <= atol)%Q -> (a == c)%Q -> (b == d)%Q ->
+  cmod_within rtol atol (sq (a - c) + sq (b - d))%Q (sq c + sq d)%Q.
+Proof.
+  intros Hr Ha E1 E2. left. unfold sq. rewrite E1, E2.
+  assert (0 <= atol * atol)%Q by (apply Qmult_le_0_compat; auto).
+  assert (0 <= rtol * rtol)%Q by (apply Qmult_le_0_compat; auto).
+  assert (0 <= c * c)%Q by (timeout 20 nra). assert (0 <= d * d)%Q by (timeout 20 nra).
+  assert (0 <= rtol * rtol * (c * c + d * d))%Q by (apply Qmult_le_0_compat; auto; timeout 20 lra).
+  setoid_replace ((c - c) * (c - c) + (d - d) * (d - d))%Q with 0%Q by ring. timeout 20 lra.
+Qed.
+
+Lemma isclose_cx_sound rtol atol xr xi yr yi : (0 <= rtol)%Q -> (0 <= atol)%Q ->
+  isclose_cx rtol atol xr xi yr yi = true -> within_cx rtol atol xr xi yr yi.
+Proof.
+  intros Hr Ha H.
+  assert (Gen : (is_real xr && is_real xi && is_real yr && is_real yi) &&
+                ((real_eqb xr yr && real_eqb xi yi) || (cx_nan xr xi && cx_nan yr yi)) = true ->
+                (is_real xr && is_real xi && is_real yr && is_real yi = true) /\
+                ((real_same xr yr /\ real_same xi yi) \/ (cx_nan xr xi = true /\ cx_nan yr yi = true))).
+  { intro G. apply andb_prop in G as [G1 G2]. split; auto.
+    apply orb_prop in G2 as [G2|G2]; apply andb_prop in G2 as [G3 G4].
+    - left. split; now apply real_eqb_same.
+    - right. auto. }
+  destruct xr as [|s1|a|z1|b1|r1 i1]; try (now apply Gen);
+  destruct xi as [|s2|b|z2|b2|r2 i2]; try (now apply Gen);
+  destruct yr as [|s3|c|z3|b3|r3 i3]; try (now apply Gen);
+  destruct yi as [|s4|d|z4|b4|r4 i4]; try (now apply Gen).
+  simpl in H |- *. apply orb_prop in H as [H|H].
+  - now apply cmod_close_sound.
+  - apply andb_prop in H as [H1 H2]. apply Qeq_bool_iff in H1, H2. now apply cmod_within_eq.
+Qed.
+
+Lemma isclose_b_sound rtol atol x y : (0 <= rtol)%Q -> (0 <= atol)%Q ->
+  isclose_b rtol atol x y = true -> within rtol atol x y.
+Proof.
+  intros Hr Ha.
+  destruct x as [|s|a|z|bx|xr xi]; destruct y as [|t|c|w|by_|yr yi];
+    cbn [isclose_b within is_real andb]; try discriminate;
+    try (intro H; exact (isclose_real_sound rtol atol _ _ Hr Ha H));
+    try (intro H; exact (isclose_cx_sound rtol atol _ _ _ _ Hr Ha H));
+    try (cbn [isclose_real]; discriminate).
+Qed.
+
+Lemma exact_eqb_sound rtol atol x y : exact_eqb x y = true -> within rtol atol x y.
+Proof.
+  destruct x; destruct y; simpl; try discriminate; intro H.
+  - now apply Z.eqb_eq. - now apply eqb_prop.
+Qed.
+
+(* exact_eqb only relates integers with integers and booleans with booleans *)
+Definition is_exact (v : xval) : bool := match v with XInt _ | XBool _ => true | _ => false end.
+
+(* ------------------------------------------------------------------ layout normalisations *)
+(* ORT value in NCHW, JAX value in NHWC: np.transpose(got, [0, 2, 3, 1]) on the row-major values *)
+Definition nchw_to_nhwc_vals {A} (d : A) (N C H W : nat) (v : list A) : list A :=
+  flat_map (fun n => flat_map (fun h => flat_map (fun w =>
+    map (fun c => nth (((n * C + c) * H + h) * W + w)%nat v d) (seq 0 C)) (seq 0 W)) (seq 0 H)) (seq 0 N).
+
+Definition nchw_back (g : out) : out :=
+  match o_shape g with
+  | [N; C; H; W] => {| o_dtype := o_dtype g; o_shape := [N; H; W; C];
+                      o_vals := nchw_to_nhwc_vals XNaN N C H W (o_vals g) |}
+  | _ => g                                 (* if got_arr.ndim == 4 *)
+  end.
+
+(* complex outputs are exported as real tensors with a trailing axis of size 2 *)
+Fixpoint pair_up (l : list xval) : list xval :=
+  match l with
+  | re :: im :: r =>
+      (* got[..., 0] + 1j * got[..., 1]: (0+1j)*(im+0j) has real part 0*im - 1*0, NaN for non-finite im *)
+      (if is_fin im then XCx re im else XCx XNaN im) :: pair_up r
+  | _ => []
+  end.
+
+Definition complex_of_float (d : dtype) : dtype :=
+  match d with DT_DOUBLE => DT_COMPLEX128 | _ => DT_COMPLEX64 end.
+
+Definition repack_applies (e g : out) : bool :=
+  match o_class e, o_class g with
+  | CComplex, CFloat => list_nat_eqb (o_shape g) (o_shape e ++ [2%nat])
+  | _, _ => false
+  end.
+
+Definition repack (e g : out) : out :=
+  if repack_applies e g
+  then {| o_dtype := complex_of_float (o_dtype g); o_shape := o_shape e; o_vals := pair_up (o_vals g) |}
+  else g.
+
+(* the ORT value as it is compared: user-requested NCHW back-transpose, then complex re-packing.
+   No value is changed by either step. *)
+Definition normalize1 (flag : bool) (e g : out) : out :=
+  repack e (if flag then nchw_back g else g).
+
+Definition flagged (nchw : list nat) (i : nat) : bool := existsb (Nat.eqb i) nchw.
+
+Fixpoint normalize_from (i : nat) (nchw : list nat) (expected got : list out) : list out :=
+  match expected, got with
+  | e :: es, g :: gs => normalize1 (flagged nchw i) e g :: normalize_from (S i) nchw es gs
+  | _, _ => []
+  end.
+Definition normalize := normalize_from 0.
+
+(* ------------------------------------------------------------------ the CURRENT code *)
+(* inside np.isclose an integer / boolean y is converted to float64 and x follows in x - y *)
+Definition to_f64 (v : xval) : xval :=
+  match v with XInt z => round_fmt f64 (inject_Z z) | XBool b => XFin (b2q b) | _ => v end.
+
+Definition compare_one (rtol atol : Q) (flag : bool) (e g : out) : bool :=
+  let g' := normalize1 flag e g in
+  list_nat_eqb (o_shape e) (o_shape g') &&
+  (let gv := map (cast_x (o_dtype g') (o_dtype e)) (o_vals g') in      (* got.astype(expected.dtype) *)
+   if is_floating (o_dtype e) || is_floating (o_dtype g')
+   then forall2b (fun x y => isclose_b rtol atol (to_f64 x) (to_f64 y)) (o_vals e) gv
+   else forall2b exact_eqb (o_vals e) gv).
+
+Fixpoint compare_from (one : bool -> out -> out -> bool) (i : nat) (nchw : list nat)
+                      (expected got : list out) : bool :=
+  match expected, got with
+  | [], [] => true
+  | e :: es, g :: gs => one (flagged nchw i) e g && compare_from one (S i) nchw es gs
+  | _, _ => false
+  end.
+
+Definition compare (rtol atol : Q) (nchw : list nat) (expected got : list out) : bool :=
+  Nat.eqb (length expected) (length got) && compare_from (compare_one rtol atol) 0 nchw expected got.
+
+(* ------------------------------------------------------------------ the REPAIRED code *)
+Definition compare_one_fixed (rtol atol : Q) (flag : bool) (e g : out) : bool :=
+  let g' := normalize1 flag e g in
+  list_nat_eqb (o_shape e) (o_shape g') &&
+  ckind_eqb (o_kind e) (o_kind g') &&
+  match o_kind e with
+  | KFloating => forall2b (isclose_b rtol atol) (o_vals e) (o_vals g')
+  | _ => forall2b exact_eqb (o_vals e) (o_vals g')
+  end.
+
+Definition compare_fixed (rtol atol : Q) (nchw : list nat) (expected got : list out) : bool :=
+  Nat.eqb (length expected) (length got) && compare_from (compare_one_fixed rtol atol) 0 nchw expected got.
+
+(* ------------------------------------------------------------------ the property *)
+Definition output_ok (rtol atol : Q) (e g : out) : Prop :=
+  o_shape e = o_shape g /\ o_kind e = o_kind g /\ Forall2 (within rtol atol) (o_vals e) (o_vals g).
+
+Definition sound (cmp : Q -> Q -> list nat -> list out -> list out -> bool) : Prop :=
+  forall rtol atol nchw expected got, (0 <= rtol)%Q -> (0 <= atol)%Q ->
+    cmp rtol atol nchw expected got = true ->
+    length expected = length got /\
+    Forall2 (output_ok rtol atol) expected (normalize nchw expected got).
+
+Lemma compare_from_sound (one : bool -> out -> out -> bool) (P : out -> out -> Prop) :
+  (forall flag e g, one flag e g = true -> P e (normalize1 flag e g)) ->
+  forall nchw expected got i, compare_from one i nchw expected got = true ->
+    Forall2 P expected (normalize_from i nchw expected got).
+Proof.
+  intros Hone nchw. induction expected as [|e es IH]; destruct got as [|g gs]; simpl; intros i H;
+    try discriminate; [constructor|].
+  apply andb_prop in H as [H1 H2]. constructor; auto.
+Qed.
+
+(* ---- FULL soundness of the repaired comparison *)
+Lemma compare_one_fixed_sound rtol atol flag e g : (0 <= rtol)%Q -> (0 <= atol)%Q ->
+  compare_one_fixed rtol atol flag e g = true -> output_ok rtol atol e (normalize1 flag e g).
+Proof.
+  intros Hr Ha. unfold compare_one_fixed. set (g' := normalize1 flag e g). intro H.
+  apply andb_prop in H as [H H3]. apply andb_prop in H as [H1 H2].
+  apply list_nat_eqb_eq in H1. apply ckind_eqb_eq in H2.
+  split; [exact H1|]. split; [exact H2|].
+  destruct (o_kind e).
+  - eapply forall2b_Forall2; [|exact H3]. intros; now apply exact_eqb_sound.
+  - eapply forall2b_Forall2; [|exact H3]. intros; now apply exact_eqb_sound.
+  - eapply forall2b_Forall2; [|exact H3]. intros; now apply isclose_b_sound.
+  - eapply forall2b_Forall2; [|exact H3]. intros; now apply exact_eqb_sound.
+Qed.
+
+Theorem allclose_sound_fixed : sound compare_fixed.
+Proof.
+  intros rtol atol nchw expected got Hr Ha H. unfold compare_fixed in H.
+  apply andb_prop in H as [H1 H2]. apply Nat.eqb_eq in H1. split; [exact H1|].
+  unfold normalize. eapply compare_from_sound; [|exact H2].
+  intros flag e g. now apply compare_one_fixed_sound.
+Qed.
+
+(* read the other way round: a different output count, a different shape, a different dtype kind or
+   one element beyond tolerance is always reported as a mismatch *)
+Corollary fixed_reports_every_mismatch rtol atol nchw expected got : (0 <= rtol)%Q -> (0 <= atol)%Q ->
+  ~ (length expected = length got /\
+     Forall2 (output_ok rtol atol) expected (normalize nchw expected got)) ->
+  compare_fixed rtol atol nchw expected got = false.
+Proof.
+  intros Hr Ha Hn. destruct (compare_fixed rtol atol nchw expected got) eqn:E; [|reflexivity].
+  exfalso. apply Hn. now apply allclose_sound_fixed.
+Qed.
+
+(* ---- the CURRENT code: refuted *)
+Definition mk (d : dtype) (s : list nat) (v : list xval) : out := {| o_dtype := d; o_shape := s; o_vals := v |}.
+
+(* (i) fn returns int32 ones, the model returns float32 1.5 *)
+Definition w1_expected := [mk DT_INT32 [3%nat] [XInt 1; XInt 1; XInt 1]].
+Definition w1_got := [mk DT_FLOAT [3%nat] [XFin (3 # 2)%Q; XFin (3 # 2)%Q; XFin (3 # 2)%Q]].
+(* (ii) fn returns int32 5, the model returns int64 2^32 + 5 *)
+Definition w2_expected := [mk DT_INT32 [1%nat] [XInt 5]].
+Definition w2_got := [mk DT_INT64 [1%nat] [XInt (2 ^ 32 + 5)]].
+
+Definition default_rtol : Q := (1 # 1000)%Q.
+Definition default_atol : Q := (1 # 100000)%Q.
+
+Lemma w1_accepted : compare default_rtol default_atol [] w1_expected w1_got = true.
+Proof. vm_compute. reflexivity. Qed.
+Lemma w2_accepted : compare default_rtol default_atol [] w2_expected w2_got = true.
+Proof. vm_compute. reflexivity. Qed.
+Lemma w1_rejected_fixed : compare_fixed default_rtol default_atol [] w1_expected w1_got = false.
+Proof. vm_compute. reflexivity. Qed.
+Lemma w2_rejected_fixed : compare_fixed default_rtol default_atol [] w2_expected w2_got = false.
+Proof. vm_compute. reflexivity. Qed.
+
+Lemma w1_not_ok : ~ Forall2 (output_ok default_rtol default_atol) w1_expected (normalize [] w1_expected w1_got).
+Proof.
+  intro H. inversion H as [|? ? ? ? Hok _]; subst. destruct Hok as (_ & Hk & _). discriminate Hk.
+Qed.
+
+Lemma w2_not_ok : ~ Forall2 (output_ok default_rtol default_atol) w2_expected (normalize [] w2_expected w2_got).
+Proof.
+  intro H. inversion H as [|? ? ? ? Hok _]; subst. destruct Hok as (_ & _ & Hv).
+  inversion Hv as [|? ? ? ? Hw _]; subst. simpl in Hw. vm_compute in Hw. discriminate Hw.
+Qed.
+
+Theorem allclose_sound_refuted :
+  exists rtol atol nchw expected got, (0 <= rtol)%Q /\ (0 <= atol)%Q /\
+    compare rtol atol nchw expected got = true /\
+    ~ (length expected = length got /\
+       Forall2 (output_ok rtol atol) expected (normalize nchw expected got)).
+Proof.
+  exists default_rtol, default_atol, [], w1_expected, w1_got.
+  split; [vm_compute; discriminate|]. split; [vm_compute; discriminate|].
+  split; [exact w1_accepted|]. intros [_ H]. exact (w1_not_ok H).
+Qed.
+
+Theorem allclose_sound_refuted_int_wrap :
+  exists rtol atol nchw expected got, (0 <= rtol)%Q /\ (0 <= atol)%Q /\
+    compare rtol atol nchw expected got = true /\
+    Forall2 (fun e g => o_kind e = o_kind g) expected (normalize nchw expected got) /\
+    ~ Forall2 (output_ok rtol atol) expected (normalize nchw expected got).
+Proof.
+  exists default_rtol, default_atol, [], w2_expected, w2_got.
+  split; [vm_compute; discriminate|]. split; [vm_compute; discriminate|].
+  split; [exact w2_accepted|]. split; [repeat constructor|exact w2_not_ok].
+Qed.
+
+Corollary compare_not_sound : ~ sound compare.
+Proof.
+  intro S. destruct (S default_rtol default_atol [] w1_expected w1_got) as [_ H];
+    [vm_compute; discriminate | vm_compute; discriminate | exact w1_accepted | exact (w1_not_ok H)].
+Qed.
+
+(* ---- the CURRENT code: sound exactly when the cast changes nothing *)
+(* the narrowing cast leaves every value of the (normalised) ORT output unchanged, and the dtype kinds agree *)
+Definition cast_harmless (e g' : out) : Prop :=
+  o_kind e = o_kind g' /\ map (cast_x (o_dtype g') (o_dtype e)) (o_vals g') = o_vals g'.
+
+Lemma to_f64_real v : is_exact v = false -> to_f64 v = v.
+Proof. destruct v; simpl; try reflexivity; discriminate. Qed.
+
+Lemma kind_floating_iff (o : out) : is_floating (o_dtype o) = true <-> o_kind o = KFloating.
+Proof.
+  unfold is_floating, o_kind, o_class, kind_of_class. destruct (dtype_class (o_dtype o)); split; congruence.
+Qed.
+
+(* isclose on values of which one is an integer / a boolean (after to_f64, a float) is only reachable
+   when the kinds differ; with equal floating kinds we need the values themselves to be floats. *)
+Lemma isclose_to_f64_sound rtol atol x y : (0 <= rtol)%Q -> (0 <= atol)%Q ->
+  is_exact x = false -> is_exact y = false ->
+  isclose_b rtol atol (to_f64 x) (to_f64 y) = true -> within rtol atol x y.
+Proof. intros Hr Ha Hx Hy. rewrite !to_f64_real by assumption. now apply isclose_b_sound. Qed.
+
+(* well-formed floating output: no integer / boolean element *)
+Definition floats_only (o : out) : Prop := Forall (fun v => is_exact v = false) (o_vals o).
+
+Lemma forall2b_isclose_f64 rtol atol : (0 <= rtol)%Q -> (0 <= atol)%Q ->
+  forall l m, Forall (fun v => is_exact v = false) l -> Forall (fun v => is_exact v = false) m ->
+  forall2b (fun x y => isclose_b rtol atol (to_f64 x) (to_f64 y)) l m = true ->
+  Forall2 (within rtol atol) l m.
+Proof.
+  intros Hr Ha. induction l as [|x l IH]; destruct m as [|y m]; simpl; intros Hl Hm H; try discriminate.
+  - constructor.
+  - apply andb_prop in H as [H1 H2]. inversion Hl; subst. inversion Hm; subst.
+    constructor; auto. now apply isclose_to_f64_sound.
+Qed.
+
+Lemma compare_one_partial rtol atol flag e g : (0 <= rtol)%Q -> (0 <= atol)%Q ->
+  cast_harmless e (normalize1 flag e g) ->
+  (o_kind e = KFloating -> floats_only e /\ floats_only (normalize1 flag e g)) ->
+  compare_one rtol atol flag e g = true -> output_ok rtol atol e (normalize1 flag e g).
+Proof.
+  intros Hr Ha [Hk Hc] Hwf. unfold compare_one. set (g' := normalize1 flag e g) in *. intro H.
+  apply andb_prop in H as [H1 H2]. apply list_nat_eqb_eq in H1.
+  split; [exact H1|]. split; [exact Hk|].
+  rewrite Hc in H2.
+  destruct (is_floating (o_dtype e) || is_floating (o_dtype g')) eqn:Ef.
+  - assert (Kf : o_kind e = KFloating).
+    { apply orb_prop in Ef as [Ef|Ef]; apply kind_floating_iff in Ef; congruence. }
+    destruct (Hwf Kf) as [We Wg]. eapply forall2b_isclose_f64; eauto.
+  - eapply forall2b_Forall2; [|exact H2]. intros; now apply exact_eqb_sound.
+Qed.
+
+Theorem allclose_sound_partial rtol atol nchw expected got : (0 <= rtol)%Q -> (0 <= atol)%Q ->
+  Forall2 (fun e g' => cast_harmless e g' /\ (o_kind e = KFloating -> floats_only e /\ floats_only g'))
+          expected (normalize nchw expected got) ->
+  compare rtol atol nchw expected got = true ->
+  length expected = length got /\ Forall2 (output_ok rtol atol) expected (normalize nchw expected got).
+Proof.
+  intros Hr Ha Hh H. unfold compare in H. apply andb_prop in H as [H1 H2].
+  apply Nat.eqb_eq in H1. split; [exact H1|]. clear H1.
+  unfold normalize in *. revert Hh H2. generalize 0%nat.
+  revert got. induction expected as [|e es IH]; destruct got as [|g gs]; simpl; intros i Hh H;
+    try discriminate; [constructor|].
+  apply andb_prop in H as [H1 H2]. inversion Hh as [|? ? ? ? [Hc Hw] Hrest]; subst.
+  constructor; [|now apply IH]. now apply compare_one_partial.
+Qed.
+
+(* concrete sufficient conditions for [cast_harmless] *)
+Lemma cast_same_dtype d l : map (cast_x d d) l = l.
+Proof.
+  induction l as [|v l IH]; simpl; [reflexivity|]. rewrite IH. unfold cast_x.
+  now rewrite (proj2 (dtype_eqb_eq d d) eq_refl).
+Qed.
+
+Lemma cast_int_fits from to sb l : int_info to = Some sb -> 0 < snd sb ->
+  Forall (fun v => exists z, v = XInt z /\ in_int sb z) l -> map (cast_x from to) l = l.
+Proof.
+  intros Hi Hb. induction 1 as [|v l [z [-> Hz]] _ IH]; simpl; [reflexivity|]. rewrite IH. f_equal.
+  unfold cast_x. destruct (dtype_eqb from to); [reflexivity|].
+  assert (Hnb : to <> DT_BOOL) by (intro E; subst; discriminate).
+  destruct to; try contradiction; try discriminate; rewrite Hi; simpl; now rewrite wrap_id.
+Qed.
+
+(* same dtype: the comparison of the current code is already sound *)
+Corollary harmless_same_dtype e g' : o_dtype g' = o_dtype e -> cast_harmless e g'.
+Proof.
+  intro E. split.
+  - unfold o_kind, o_class. now rewrite E.
+  - rewrite E. apply cast_same_dtype.
+Qed.
+
+(* integer ORT output whose values fit the integer type fn returned (e.g. int64 from ONNX vs the
+   int32 JAX yields with x64 disabled): sound as well *)
+Corollary harmless_int_fits e g' sb : int_info (o_dtype e) = Some sb -> 0 < snd sb ->
+  o_kind g' = KInteger ->
+  Forall (fun v => exists z, v = XInt z /\ in_int sb z) (o_vals g') -> cast_harmless e g'.
+Proof.
+  intros Hi Hb Hk Hv. split.
+  - rewrite Hk. unfold o_kind, o_class. destruct (o_dtype e); try discriminate; reflexivity.
+  - eapply cast_int_fits; eauto.
+Qed.
+
+(* non-vacuity of the partial theorem: int64 7 against int32 7, float32 against float32 *)
+Example partial_nonvacuous :
+  let e := [mk DT_INT32 [1%nat] [XInt 7]; mk DT_FLOAT [2%nat] [XFin (1 # 2)%Q; XNaN]] in
+  let g := [mk DT_INT64 [1%nat] [XInt 7]; mk DT_FLOAT [2%nat] [XFin (1 # 2)%Q; XNaN]] in
+  compare default_rtol default_atol [] e g = true /\
+  Forall2 (fun e g' => cast_harmless e g' /\ (o_kind e = KFloating -> floats_only e /\ floats_only g'))
+          e (normalize [] e g).
+Proof.
+  split; [vm_compute; reflexivity|].
+  constructor; [|constructor; [|constructor]].
+  - split; [split; reflexivity|]. intro K; discriminate K.
+  - split; [split; reflexivity|]. intros _. split; repeat constructor.
+Qed.
+
+(* ------------------------------------------------------------------ tolerance test: link to the modulus *)
+(* for real operands [within] is literally |e-g| <= atol + rtol |g|; for complex operands the squared
+   form implies the same inequality on the complex moduli |e-g| = sqrt D, |g| = sqrt G (over R):
+     D <= (atol + rtol sqrt G)^2  <->  M <= 2 atol rtol sqrt G  <->  M <= 0 \/ M^2 <= 4 atol^2 rtol^2 G *)
+Section Modulus.
+Local Open Scope R_scope.
+Lemma cmod_real (r a D g s : R) : 0 <= r -> 0 <= a -> 0 <= s -> s * s = g ->
+  (D - a * a - r * r * g <= 0 \/
+   (D - a * a - r * r * g) * (D - a * a - r * r * g) <= 4 * (a * a) * (r * r) * g) ->
+  D <= (a + r * s) * (a + r * s).
+Proof.
+  intros Hr Ha Hs Hg [H|H]; subst g.
+  - assert (0 <= a * r * s) by (repeat apply Rmult_le_pos; auto). timeout 20 nra.
+  - assert (Hp : 0 <= a * r * s) by (repeat apply Rmult_le_pos; auto).
+    set (M := D - a * a - r * r * (s * s)) in *.
+    assert (HM : M <= 2 * (a * r * s)).
+    { destruct (Rle_lt_dec M (2 * (a * r * s))) as [|Hlt]; [assumption|]. exfalso.
+      assert (M * M <= (2 * (a * r * s)) * (2 * (a * r * s))) by (timeout 20 nra).
+      timeout 20 nra. }
+    unfold M in HM. timeout 20 nra.
+Qed.
+
+Lemma sqrt_le_of_sq (D T : R) : 0 <= T -> D <= T * T -> sqrt D <= T.
+Proof.
+  intros HT H. rewrite <- (sqrt_square T) by assumption. now apply sqrt_le_1_alt.
+Qed.
+
+Theorem cmod_within_modulus (rtol atol D G : Q) :
+  (0 <= rtol)%Q -> (0 <= atol)%Q -> (0 <= G)%Q -> cmod_within rtol atol D G ->
+  sqrt (Q2R D) <= Q2R atol + Q2R rtol * sqrt (Q2R G).
+Proof.
+  intros Hr Ha HG H.
+  apply Qle_Rle in Hr, Ha, HG. change (Q2R 0) with (Q2R (0 # 1)) in *.
+  replace (Q2R (0 # 1)) with 0 in * by (unfold Q2R; simpl; timeout 20 lra).
+  pose proof (sqrt_pos (Q2R G)) as Hs. pose proof (sqrt_sqrt _ HG) as Hss.
+  apply sqrt_le_of_sq.
+  - assert (0 <= Q2R rtol * sqrt (Q2R G)) by (apply Rmult_le_pos; auto). timeout 20 lra.
+  - apply cmod_real with (g := Q2R G); auto.
+    unfold cmod_within, sq in H.
+    destruct H as [H|H]; apply Qle_Rle in H; [left|right];
+      repeat (rewrite ?Q2R_minus, ?Q2R_mult, ?Q2R_plus in H);
+      replace (Q2R 0) with 0 in H by (unfold Q2R; simpl; timeout 20 lra);
+      try replace (Q2R 4) with 4 in H by (unfold Q2R; simpl; timeout 20 lra); timeout 20 lra.
+Qed.
+End Modulus.
+
+(* ------------------------------------------------------------------ _temporary_x64 *)
+(* @contextmanager
+   def _temporary_x64(enabled):
+       prev = flag
+       try:
+           if enabled != prev: flag = enabled
+           yield
+       finally:
+           if flag != prev: flag = prev                                             *)
+Inductive exit_kind := ExitNormal | ExitRaise.
+
+(* the body runs with some flag value and may leave ANY flag value behind, normally or by raising *)
+Definition temporary_x64 (enabled prev : bool) (body : bool -> bool * exit_kind) : bool * exit_kind :=
+  let entered := if Bool.eqb enabled prev then prev else enabled in
+  let '(after_body, ex) := body entered in
+  let restored := if Bool.eqb after_body prev then after_body else prev in
+  (restored, ex).
+
+Theorem x64_flag_restored enabled prev body :
+  fst (temporary_x64 enabled prev body) = prev.
+Proof.
+  unfold temporary_x64. destruct (body _) as [a ex]. simpl.
+  destruct (Bool.eqb a prev) eqn:E; [now apply eqb_prop in E|reflexivity].
+Qed.
+
+Theorem x64_body_sees_requested enabled prev body :
+  exists a, body enabled = (a, snd (temporary_x64 enabled prev body)).
+Proof.
+  unfold temporary_x64.
+  assert (E : (if Bool.eqb enabled prev then prev else enabled) = enabled).
+  { destruct (Bool.eqb enabled prev) eqn:E; [symmetry; now apply eqb_prop in E|reflexivity]. }
+  rewrite E. destruct (body enabled) as [a ex]. now exists a.
+Qed.
+
+(* allclose = _validation_inputs_to_arrays (does not touch the flag) ; with _temporary_x64(...): body *)
+Corollary allclose_leaves_flag enabled body :
+  forall prev, fst (temporary_x64 enabled prev body) = prev.
+Proof. intro prev. apply x64_flag_restored. Qed.
